@@ -20,7 +20,7 @@ SUPPORTS = {
         'blobs': [(0, 0), (0, 1), (1, 0), (4, 4), (4, 5), (3, 5), (3, 4)]}, 'kmax': 4},
 }
 SUPPORTS['quick'] = dict(SUPPORTS['thorough'], kmax=3)
-CHAINS = ['one', 'two_mono', 'two_seg', 'tilt_chain', 'blocktilt', 'signed', 'flood']
+CHAINS = ['one', 'two_mono', 'two_seg', 'tilt_chain', 'blocktilt', 'signed', 'flood', 'scalar_amp']
 PROPS = [dict(shape=(5, 5), prop_shape=None, oversample=2), dict(shape=(6, 5), prop_shape=(3, 4), oversample=1),
          dict(shape=(7, 7), prop_shape=(2, 2), oversample=1)]
 
@@ -88,7 +88,11 @@ def build_chain(tier, cfg, seed, segmented):
         amp = amp * flips
         if not (segmented and max(rgs) > 0):
             mask = None
-    p1 = lentil.Pupil(amplitude=amp.copy(), opd=opd.copy(), mask=None if mask is None else np.array(mask, copy=True), pixelscale=DX, focal_length=Z)
+    if cfg['chain'] == 'scalar_amp':
+        # uniform transmission given as a number: the mask (one global mask or the partition) alone defines the aperture
+        p1 = lentil.Pupil(amplitude=0.7, opd=opd.copy(), mask=np.array(mask, copy=True), pixelscale=DX, focal_length=Z)
+    else:
+        p1 = lentil.Pupil(amplitude=amp.copy(), opd=opd.copy(), mask=None if mask is None else np.array(mask, copy=True), pixelscale=DX, focal_length=Z)
     if cfg['chain'] == 'rescaled':
         p1 = p1.rescale(2)             # a plane with a history: built, resampled, then used
     if cfg['fit']:
@@ -100,7 +104,7 @@ def build_chain(tier, cfg, seed, segmented):
         t2 = (-1.7 * op.DU / Z, 1.2 * op.DU / Z)
         return lentil.Wavefront(WL, tilt=list(t1)) * p1 * lentil.Tilt(x=t2[0], y=t2[1])
     w = lentil.Wavefront(WL) * p1
-    if cfg['chain'] not in ('one', 'blocktilt', 'rescaled', 'signed', 'flood'):
+    if cfg['chain'] not in ('one', 'blocktilt', 'rescaled', 'signed', 'flood', 'scalar_amp'):
         amp2 = rm.generic_real(shape, seed, tag=53, lo=0.5, hi=1.0)
         opd2 = rm.generic_real(shape, seed, tag=54, lo=-0.1, hi=0.1) * WL
         # second aperture: everything except the first support pixel and one extra corner
@@ -126,6 +130,8 @@ def model_field(tier, cfg, seed, drop_singletons=False):
         amp = amp * flips
     if cfg['chain'] == 'flood':
         amp = rm.generic_real(shape, seed, tag=51, lo=0.4, hi=1.0)
+    if cfg['chain'] == 'scalar_amp':
+        amp = np.full(shape, 0.7)
     f = op.phasor(amp, opd, WL, union)
     if drop_singletons:
         rgs = cfg['rgs']
@@ -133,7 +139,7 @@ def model_field(tier, cfg, seed, drop_singletons=False):
             members = [p for p, bb in zip(pix, rgs) if bb == b]
             if len(members) == 1 and tuple(members[0]) != (shape[0] // 2, shape[1] // 2) and max(rgs) > 0:
                 f[members[0]] = 0
-    if cfg['chain'] not in ('one', 'tilt_chain', 'blocktilt', 'rescaled', 'signed', 'flood'):
+    if cfg['chain'] not in ('one', 'tilt_chain', 'blocktilt', 'rescaled', 'signed', 'flood', 'scalar_amp'):
         amp2 = rm.generic_real(shape, seed, tag=53, lo=0.5, hi=1.0)
         opd2 = rm.generic_real(shape, seed, tag=54, lo=-0.1, hi=0.1) * WL
         m2 = np.ones(shape); m2[pix[0]] = 0; m2[-1, 0] = 0
